@@ -129,6 +129,14 @@ def one_case(seed, n, counts):
                 reg.add(ps)
             hist.append(("add", ps))
         counts["registry_ops"] += 1
+        # constructions interleaved with the registry history: what is built must reflect the registry as it is *now* (same names, same dtype as a moment ago,
+        # possibly other defaults after reset + re-registration)
+        k_pts = int(rng.choice([1, 2, 5]))
+        for ctor, arr in (("empty_structured_array", lpm.empty_structured_array(k_pts, names)),
+                          ("numpy_array_to_live_points", lpm.numpy_array_to_live_points(np.zeros((k_pts, d)), names)),
+                          ("parameters_to_live_point", lpm.parameters_to_live_point([0.0] * d, names))):
+            counts["interleaved_constructions"] = counts.get("interleaved_constructions", 0) + 1
+            check_defaults(arr, reg, names, True, probs, f"after-registry-op:{ctor}")
         got = lpm.get_dtype(names)
         if got != np.dtype(reg.fields(names)):
             probs.append(("registry:get_dtype", str(got.names), hist))
